@@ -1498,7 +1498,7 @@ func (c *Conn) readHeader(b []byte, res *fasthttp.Response) error {
 
 	dec := c.dec
 
-	var regularSeen bool
+	var regularSeen, statusSeen bool
 
 	for len(b) > 0 {
 		b, err = dec.Next(hf, b)
@@ -1517,6 +1517,14 @@ func (c *Conn) readHeader(b []byte, res *fasthttp.Response) error {
 			if !bytes.Equal(hf.KeyBytes(), StringStatus) {
 				return fmt.Errorf("invalid response pseudo-header %q", hf.KeyBytes())
 			}
+
+			// There is one status per response: a second :status in the block
+			// is malformed, not a correction of the first.
+			if statusSeen {
+				return errInvalidStatus
+			}
+
+			statusSeen = true
 
 			n, err := parseUint(hf.ValueBytes())
 			if err != nil || n < 100 || n > 999 {
